@@ -1054,7 +1054,7 @@ class Distribution(ScalarDistribution):
         """
         crvs, cindexes = parse_rvs(self, crvs, rv_mode, unique=True, sort=True)
         if rvs is None:
-            indexes = set(range(self.outcome_length())) - set(cindexes)
+            indexes = sorted(set(range(self.outcome_length())) - set(cindexes))
         else:
             rvs, indexes = parse_rvs(self, rvs, rv_mode, unique=True, sort=True)
 
